@@ -669,7 +669,7 @@ static const char *kTemplates[] = {
 	// 3c: req context abandoned before the reply arrives
 	"open 6 0|open 7 0|listen 1 T|dial 0 0 F|sleep 2|ctxopen 0|ctxsend 0 8 0 1|recv 1 S|ctxclose 0|send 1 S 8|sleep 2",
 	// 4: pub with two subs
-	"open 2 0|open 3 0|open 3 0|subscribe 1 0 0|subscribe 2 0 0|listen 0 T|dial 1 0 F|dial 2 0 F|sleep 2|send 0 S 20|send 0 S 2000|recv 1 S|recv 2 S|recv 1 S",
+	"open 2 0|open 3 0|open 3 0|subscribe 1 0 0|subscribe 2 0 0|listen 0 T|dial 1 0 F|dial 2 0 F|sleep 2|send 0 S 20|send 0 S 2000|send 0 S 5|send 0 S 6|recv 1 S|recv 2 S|recv 1 S|recv 1 S|recv 1 S|recv 2 S",
 	// 5: pipeline
 	"open 4 0|open 5 0|open 5 0|listen 0 T|dial 1 0 F|dial 2 0 F|sleep 2|send 0 S 10|send 0 S 10|send 0 S 70000|recv 1 S|recv 2 S|recv 1 S",
 	// 6: pair1
